@@ -49,7 +49,8 @@ class KernelSim(WorldBase):
     def gen_config(cls, prop, rng, tier):
         cfg = {"mode": prop, "max_events": 400,
                "explicit": 0.0,
-               "max_shape": rng.choice([2, 3, 4, 5]) if prop == "C06" else rng.choice([2, 3, 4])}
+               "max_shape": (rng.choice([2, 3, 4, 5]) if prop == "C06" else rng.choice([2, 3, 4]))
+               + (rng.choice([0, 1, 2]) if tier == "thorough" else 0)}
         if prop == "C06":
             cfg["explicit"] = rng.choice([0.0, 0.0, 0.15])
             cfg["max_flows"] = rng.choice([12, 30, 60])
